@@ -217,6 +217,52 @@ def run(chk, replay=None):
                         u = {"ev": "Unmarshal", "fmt": f2, "bytes": list(resp["bytes"]), "exc": "",
                              "out": flatten(cmd.result) if cmd.result else {"#empty": []}, "method": method, "set": setname}
                         unms.append(u)
+                        # the caller edits the result it got; the same call against a device that answers with the
+                        # same bytes must again decode what the device wrote (nothing remembered, nothing shared)
+                        if isinstance(cmd.result, dict) and not fail and rng.random() < 0.5:
+                            from .c06 import scramble
+                            try:
+                                scramble(cmd.result)
+                            except Exception:
+                                pass
+
+                            def refill(c2, b=resp["bytes"]):
+                                c2.datain[:] = (bytearray(b) + bytearray(len(c2.datain)))[:len(c2.datain)]
+                            dev.fill = refill
+                            try:
+                                args2 = [a[n] if n != "data" else (None if a.get("ndob") else bytearray(data)) for n in req]
+                                cmd2 = getattr(facade, method)(*args2, **kwargs)
+                                unms.append(dict(u, out=flatten(cmd2.result) if cmd2.result else {"#empty": []},
+                                                 again=True))
+                            except Exception as ex:
+                                unms.append(dict(u, out={"#empty": []}, exc=type(ex).__name__, again=True))
+    # ---- byte-identical device answers, different decode-relevant arguments -------------------------------
+    # INQUIRY: the same 96 bytes are standard data for evpd=0 and a Unit Serial Number page for evpd=1
+    for setname in ("spc", "sbc", "mmc"):
+        for _ in range(4 if chk.quick else 200):
+            b = datafmt.vpd(rng, 0x80, datafmt.rb(rng, rng.choice([0, 4, 20])))
+            b = (b + datafmt.rb(rng, 96))[:96]
+            dev = RecDevice(ec.spc, None)
+            facade = SCSI(dev, 0)
+            dev.opcodes = getattr(ec, setname)
+            dev.calls = []
+
+            def fill96(cmd, b=b):
+                cmd.datain[:] = b[:len(cmd.datain)]
+            dev.fill = fill96
+            order = [("InquiryStd", {}), ("Vpd80", {"evpd": 1, "page_code": 0x80})]
+            if rng.random() < 0.5:
+                order.reverse()
+            for fmt, kw in order + order[:1]:
+                u = {"ev": "Unmarshal", "fmt": fmt, "bytes": list(b), "exc": "", "out": {"#empty": []},
+                     "method": "inquiry", "set": setname, "again": True}
+                try:
+                    c = facade.inquiry(alloclen=96, **kw)
+                    u["out"] = flatten(c.result) if c.result else {"#empty": []}
+                except Exception as ex:
+                    u["exc"] = type(ex).__name__
+                unms.append(u)
+            ev.case(("same-bytes", setname, bytes(b)))
     # ---- TLC judges ---------------------------------------------------------------------------------------
     vs, st = tlc.judge_traces("Trace_Facade", "Trace_Facade.cfg", calls, name="c13trf")
     ev.judged("Trace_Facade", st, len(calls))
@@ -257,7 +303,9 @@ def run(chk, replay=None):
                       "the command x every subset of the optional keyword arguments (sampled above %d subsets) with a "
                       "recording device that fills the data-in buffer with a generated response; judged: exactly one "
                       "execute, same buffers and CDB (Trace_Facade), passed arguments and defaults in the CDB "
-                      "(Trace_Command), cmd.result = parse of what the device wrote (Trace_Data). distinct by (method, "
+                      "(Trace_Command), cmd.result = parse of what the device wrote (Trace_Data), also for a repeated call after "
+                      "the caller edited the first result and for byte-identical answers decoded under different "
+                      "arguments (INQUIRY evpd 0 / 1). distinct by (method, "
                       "set, keyword subset)." % (len(METHODS) + 3, 24 if chk.quick else 300))
 
 
